@@ -68,6 +68,9 @@ func runSharded(name, tier string, n int) *CustomResult {
 			// of the core report in a reproducible order (with two Ps the first answer wins ties differently from run
 			// to run, seen as replay divergence in E2 and nondeterministic replay in E1)
 			procs := "1"
+			if name == "c17" || name == "c15" {
+				procs = "2" // sequential enumerations: the second P only takes the garbage collector off the worker
+			}
 			if p := os.Getenv("VERIF_SHARD_PROCS"); p != "" {
 				procs = p
 			}
